@@ -33,17 +33,17 @@ def render_cell(cell, ncols, style):
     return cell
 
 
-def render(hdr, tab, style, nl):
+def render(hdr, tab, style, nl, eol='\n'):
     n = len(hdr)
     lines = [','.join(render_cell(c, n, style) for c in r) for r in [hdr] + tab]
-    t = '\n'.join(lines)
-    return t + '\n' if nl else t
+    t = eol.join(lines)
+    return t + eol if nl else t
 
 
 def text_of(case):
     if 't' in case:
         return case['t']
-    return render(case['hdr'], case['tab'], case['style'], case['nl'])
+    return render(case['hdr'], case['tab'], case['style'], case['nl'], case.get('eol', '\n'))
 
 
 def normalize(t):
@@ -288,6 +288,7 @@ def features(case, model):
     if any(ord(ch) > 127 for ch in t): f.append('multi-byte')
     if '""' in t.replace('""""', ''): f.append('doubled-quote')
     if '\r' in t: f.append('cr')
+    if case.get('eol') == '\r\n': f.append('crlf-rendered-table')
     if normalize(t) != t: f.append('blank-skipped')
     if case.get('inc') is not None: f.append('include')
     if case.get('exc') is not None: f.append('exclude')
@@ -317,16 +318,16 @@ HDRS = {1: ['a'], 2: ['a', 'b'], 3: ['a', 'bb', 'c'], 4: ['a', 'b', 'c', 'd'], 5
         6: ['a', 'b', 'c', 'd', 'e', 'f'], 7: ['a', 'b', 'c', 'd', 'e', 'f', 'g']}
 
 
-def min_crs(hdr, tab, style, nl):
-    t = render(hdr, tab, style, nl)
+def min_crs(hdr, tab, style, nl, eol='\n'):
+    t = render(hdr, tab, style, nl, eol)
     rl = record_lengths(t)
     need = rl[0] + max(rl[1:] or [0])
     w = 2 * len(hdr)
     return max(1, -(-need // w)), len(t)
 
 
-def crs_values(hdr, tab, style, nl, extra=2, cap=None):
-    lo, size = min_crs(hdr, tab, style, nl)
+def crs_values(hdr, tab, style, nl, extra=2, cap=None, eol='\n'):
+    lo, size = min_crs(hdr, tab, style, nl, eol)
     hi = max(lo, -(-(size + 2) // (2 * len(hdr)))) + extra
     vals = list(range(lo, hi + 1))
     if cap and len(vals) > cap:
@@ -414,7 +415,8 @@ def gen(tier, rng):
         tab = [[rand_cell(rng) for _ in range(c)] for _ in range(r)]
         style = rng.choice(['min', 'min', 'all'])
         nl = rng.random() < 0.6
-        vals = crs_values(hdr, tab, style, nl, extra=1)
+        eol = '\r\n' if rng.random() < 0.2 else '\n'
+        vals = crs_values(hdr, tab, style, nl, extra=1, eol=eol)
         crs = rng.choice(vals)
         if rng.random() < 0.5:
             offs = big_offs(c, tab, style)
@@ -423,7 +425,10 @@ def gen(tier, rng):
             for _ in range(c):
                 offs.append(offs[-1] + rng.randint(1, 12))
         imap = [j for j in range(c) if rng.random() < 0.8]
-        yield drv_case(hdr, tab, style, nl, crs, offs, imap)
+        case = drv_case(hdr, tab, style, nl, crs, offs, imap)
+        if eol != '\n':
+            case['eol'] = eol          # RFC-4180 line breaks (and what csv.writer emits by default)
+        yield case
     # E. full import through parsers.read_csv_with_schema_dict (HDF5), include / exclude, >= 6 columns reach
     #    the 10*chunk_row_size value budget
     for _ in range(2500 if big else 700):
@@ -500,7 +505,7 @@ RULE = ('exhaustive small scope: every table over a 9-cell grammar pool (empty, 
         'longest record) to one window holding the file; every per-column value budget in {1,2,3,5} bytes on 2-row '
         'tables (forces values-full, re-entry at the saved offset, repeated doubling); all-empty tables that fill the '
         'index buffer exactly at the window end; then seeded random tables (<= 8x6, long cells, random budgets, both '
-        'quoting styles, include/exclude through the real HDF5 import with >= 6 columns so the production budget '
+        'quoting styles, 20% with CRLF line breaks, include/exclude through the real HDF5 import with >= 6 columns so the production budget '
         '10*chunk_row_size overflows); text-level blank-skipping and CRLF files judged against csv.reader; a malformed '
         'stream (ragged, stray quotes, windows below the regime) compared model-vs-implementation only. Non-trivial = '
         'the call parses at least the header of a generated table.')
